@@ -10,6 +10,7 @@ mod refavro;
 mod rng;
 mod run;
 mod sut;
+mod sutc;
 
 use run::PropSpec;
 
